@@ -18,11 +18,12 @@ from scipy.spatial.transform import Rotation as R
 
 from .. import tlc
 from ..common import MachineryError, cjson, import_magpylib, rng, tier, workdir
-from ..lattice import Kappa
+from ..lattice import Kappa, mat_to_rot
 from ..quant import gross, q8, q12
 
 MESH_KW = dict(check_open="ignore", check_disconnected="ignore", check_selfintersecting="ignore", reorient_faces="ignore")
 POLY_NS = (16, 64, 256)
+FINE_E = (5, 6, 7)                                               # path increments scaled by 1e-5, 1e-6, 1e-7: steps of 1e-3 .. 1e-5 degrees
 SUM_LAWS = ("Split", "SplitSeg", "Merge", "Convert", "Op")       # conclusions on sums over the sources: two-limb quantization
 
 
@@ -60,6 +61,18 @@ def exact_gauge(salt):
     return {"lam0": lam0, "quat": [0.0, 0.0, 0.0, 1.0], "t0": [0.0, 0.0, 0.0], "decade": int(math.floor(math.log10(lam0) + 1e-12))}
 
 
+def generic_gauge(salt, decades=(-9, 9)):
+    """A global rotation all of whose quaternion components are sizeable (no special direction, no small angle)."""
+    r = rng("generic:" + salt)
+    lam0 = 10.0 ** r.uniform(*decades)
+    while True:
+        q = np.array([r.gauss(0, 1) for _ in range(4)])
+        q /= np.linalg.norm(q)
+        if np.abs(q).min() > 0.2:
+            break
+    return {"lam0": lam0, "quat": q.tolist(), "t0": [r.uniform(-3, 3) for _ in range(3)], "decade": int(math.floor(math.log10(lam0) + 1e-12))}
+
+
 def regauge(kp, salt):
     """Same lattice unit, another generic global rotation and translation (law KappaInvariance)."""
     k2 = kappa_params(salt, (0, 0), lam_exact=kp["lam0"])
@@ -77,20 +90,37 @@ class Builder:
     def __init__(self):
         self.magpy = import_magpylib()
 
-    def pose(self, path, den, kap):
-        pos = np.array([kap.pos(np.array(ps["p"], dtype=float) / den) for ps in path])
-        rot = kap.rot([ps["r"] for ps in path])
-        if len(path) == 1:
+    def pose(self, path, den, kap, fine=0, ref=None, at=0):
+        """Poses of a path under the concretization.  fine = e > 0: the small-angle image - position increments (relative to
+        the first pose) scaled by eps = 10^-e and the orientation R0 * exp(eps * log(R0^T r_i)) with the reference orientation
+        R0 = `ref` (first orientation of the first source for all sources, the own first orientation for the sensor).
+        at = m > 0: the static placement at pose number min(m, length) of that (image) path."""
+        P = np.array([ps["p"] for ps in path], dtype=float)
+        mats = [ps["r"] for ps in path]
+        if fine:
+            eps = 10.0 ** (-fine)
+            P = P[0] + eps * (P - P[0])
+            r0 = mat_to_rot(ref if ref is not None else mats[0])
+            rel = r0.inv() * mat_to_rot(mats)
+            rots = r0 * R.from_rotvec(np.atleast_2d(rel.as_rotvec()) * eps)
+        else:
+            rots = mat_to_rot(mats)
+        if at:
+            k = min(at, len(path)) - 1
+            P, rots = P[k:k + 1], rots[k:k + 1]
+        pos = np.array([kap.pos(p / den) for p in P])
+        rot = kap.RG * rots
+        if len(P) == 1:
             return pos[0], rot[0]
         return pos, rot
 
-    def source(self, src, cfg, kap, ngon=None):
+    def source(self, src, cfg, kap, ngon=None, fine=0, at=0):
         m = self.magpy
         den = cfg["den"]
         u = kap.lam / den                      # metres per abstract length unit
         f = 10.0 ** cfg["ea"]
         exc = np.array(src["exc"], dtype=float) * f
-        pos, rot = self.pose(src["path"], den, kap)
+        pos, rot = self.pose(src["path"], den, kap, fine, cfg["srcs"][0]["path"][0]["r"], at)
         kw = dict(position=pos, orientation=rot)
         c, g = src["cls"], src["geo"]
         if c == "Cuboid":
@@ -180,21 +210,21 @@ class Builder:
             return m.misc.CustomSource(field_func=lattice_field, **kw)
         raise MachineryError(f"unknown source class {c}")
 
-    def observers(self, cfg, kap):
+    def observers(self, cfg, kap, fine=0, at=0):
         den = cfg["den"]
         pts = np.array([o["x"] for o in cfg["obs"]], dtype=float)
         if cfg["sens"]["on"]:
-            pos, rot = self.pose(cfg["sens"]["path"], den, kap)
+            pos, rot = self.pose(cfg["sens"]["path"], den, kap, fine, None, at)
             return self.magpy.Sensor(pixel=pts * (kap.lam / den), position=pos, orientation=rot)
         return np.array([kap.pos(p / den) for p in pts])
 
-    def measure(self, cfg, kp, fields, ngon=None):
+    def measure(self, cfg, kp, fields, ngon=None, fine=0, at=0):
         """-> {"f": {field: array [source][path index][observer][3]}, "mesh": [status per source], "pathlen": M}
         Vectors are returned in the abstract frame (global rotation of kappa undone) unless read by the Sensor."""
         m = self.magpy
         kap = make_kappa(kp, cfg)
-        srcs = [self.source(s, cfg, kap, ngon) for s in cfg["srcs"]]
-        obs = self.observers(cfg, kap)
+        srcs = [self.source(s, cfg, kap, ngon, fine, at) for s in cfg["srcs"]]
+        obs = self.observers(cfg, kap, fine, at)
         out = {}
         for f in fields:
             fn = {"B": m.getB, "H": m.getH, "J": m.getJ}[f]
@@ -246,22 +276,23 @@ class Instancer:
         self.b = Builder()
         self.cache = {}
 
-    def meas(self, cfg, kp, fields, ngon=None):
-        key = (cjson(cfg), cjson(kp), fields, ngon)
+    def meas(self, cfg, kp, fields, ngon=None, fine=0, at=0):
+        key = (cjson(cfg), cjson(kp), fields, ngon, fine, at)
         if key not in self.cache:
             if len(self.cache) > 64:
                 self.cache.clear()
-            self.cache[key] = self.b.measure(cfg, kp, fields, ngon)
+            self.cache[key] = self.b.measure(cfg, kp, fields, ngon, fine, at)
         return self.cache[key]
 
     def event(self, inst):
         """inst: {"tid", "pre", "act", "post", "kappa", ["kappa2"]} -> event for TV_Laws"""
         pre, act, post, kp = inst["pre"], inst["act"], inst["post"], inst["kappa"]
         fields = fields_of(act)
-        fine = act["name"] in SUM_LAWS
-        mb = self.meas(pre, kp, fields)
+        fe = inst.get("fine", 0)               # small-angle image of the paths (increments scaled by 10^-fe)
+        fine = act["name"] in SUM_LAWS or fe > 0
+        mb = self.meas(pre, kp, fields, None, fe)
         nobs = len(pre["obs"])
-        ev = {"tid": inst["tid"], "pre": pre, "act": act, "post": post, "kappa": {"decade": kp["decade"]}}
+        ev = {"tid": inst["tid"], "pre": pre, "act": act, "post": post, "kappa": {"decade": kp["decade"]}, "fine": {"e": fe}}
         obs = []
         if is_polygon(act):
             polys = [self.meas(post, kp, fields, n) for n in POLY_NS]
@@ -276,7 +307,11 @@ class Instancer:
             ev["mesh"] = {"b": mb["mesh"], "a": mb["mesh"]}
             ev["obs"] = obs
             return ev
-        ma = self.meas(post, inst.get("kappa2", kp), fields)
+        if act["name"] == "Freeze" and fe:
+            # the static placement at pose number m of the SAME image paths (the abstract post-configuration is their lattice original)
+            ma = self.meas(pre, kp, fields, None, fe, act["m"])
+        else:
+            ma = self.meas(post, inst.get("kappa2", kp), fields, None, fe)
         for j in range(nobs):
             rec = {}
             for f in fields:
@@ -318,9 +353,16 @@ def plan_from_states(states, mode, cap=None):
     for s in tr:
         pre, act, post = s["prev"], s["last"], s["cur"]
         h = hashlib.sha1(cjson(pre).encode()).hexdigest()[:12]
-        for c in range(nregauge if act["name"] == "Reconcretize" else 1):
+        fine_base = mode == "C03" and str(s["base"][0]).startswith("Fine")
+        variants = [(c, 0) for c in range(nregauge if act["name"] == "Reconcretize" else 1)]
+        if fine_base and (act["name"] in ("Freeze", "Reconcretize") or (act["name"] == "RigidMove" and s["n"] == 1 and len(insts) % 3 == 0)):
+            variants += [(100 + fe, fe) for fe in FINE_E]
+        for c, fe in variants:
             tid += 1
-            if mode == "C12":
+            if fe:
+                # fine variants: canonical frame (the lattice itself) against a generic frame for Reconcretize, a generic frame else
+                kp = exact_gauge(f"{h}:fine:{fe}") if act["name"] == "Reconcretize" else generic_gauge(f"{h}:fine:{fe}:{tid % nslots}")
+            elif mode == "C12":
                 # the decade is cfg.k; the lattice unit is 10^k m exactly for one half of the plan and m * 10^k m with a generic
                 # mantissa m in [1, 10) for the other half (coordinates that are not round numbers of metres)
                 kp = kappa_params(f"{h}", (0, 0), lam_exact=1.0) if tid % 2 else kappa_params(f"{h}:mant", (0, 1))
@@ -332,9 +374,12 @@ def plan_from_states(states, mode, cap=None):
                 kp = kappa_params(f"{h}:regauge:{c}", (lo, lo + 18.0 / nregauge))
             else:
                 kp = kappa_params(f"{h}:{tid % nslots}", (-9, 9))
-            inst = {"tid": tid, "pre": pre, "act": act, "post": post, "kappa": kp, "base": s["base"], "n": s["n"]}
+            inst = {"tid": tid, "pre": pre, "act": act, "post": post, "kappa": kp, "base": s["base"], "n": s["n"], "fine": fe}
             if act["name"] == "Reconcretize":
                 inst["kappa2"] = regauge(kp, f"{h}:{c}:second")
+                if fe:
+                    g2 = generic_gauge(f"{h}:fine:{fe}:second")
+                    inst["kappa2"] = dict(g2, lam0=kp["lam0"], decade=kp["decade"])
             insts.append(inst)
     return insts
 
@@ -476,9 +521,13 @@ def replay_case(case):
                 c, p = mb["f"][f][0, :, j - 1], mp_["f"][f][0, :, j - 1]
                 print(f"N={n} {f}: max|polygon - circle| / max|circle| = {np.abs(p - c).max() / np.abs(c).max():.3e}")
         return 0
-    mb = it.meas(inst["pre"], inst["kappa"], fields)
-    ma = it.meas(inst["post"], inst.get("kappa2", inst["kappa"]), fields)
-    print("mesh status before", mb["mesh"], "after", ma["mesh"])
+    fe = inst.get("fine", 0)
+    mb = it.meas(inst["pre"], inst["kappa"], fields, None, fe)
+    if inst["act"]["name"] == "Freeze" and fe:
+        ma = it.meas(inst["pre"], inst["kappa"], fields, None, fe, inst["act"]["m"])
+    else:
+        ma = it.meas(inst["post"], inst.get("kappa2", inst["kappa"]), fields, None, fe)
+    print("fine", fe, "mesh status before", mb["mesh"], "after", ma["mesh"])
     for f in fields:
         jj = range(len(inst["pre"]["obs"])) if j == 0 else [j - 1]
         for o in jj:
